@@ -52,6 +52,20 @@ theorem wcs_receives_fits_coordinate {S : Type} (sky : Pix → S) (H W i j : Nat
   rw [List.getElem?_map, getElem?_indexes H W i j hi hj]
   simp [pix2world, wcsOrigin, fitsCoord]
 
+/-- **origin 0 is the only origin argument that meets the Spec**: the WCS is handed the own FITS
+    coordinate of pixel (i, j) for every WCS iff the origin argument is 0 -/
+theorem origin_zero_iff (origin : Int) (i j : Nat) :
+    (∀ (S : Type) (sky : Pix → S),
+        pix2world sky origin (((j : Nat) : Int), ((i : Nat) : Int)) = sky (fitsCoord i j)) ↔ origin = 0 := by
+  constructor
+  · intro h
+    have := h Pix (fun p => p)
+    simp only [pix2world, fitsCoord, Prod.mk.injEq] at this
+    omega
+  · intro h S sky
+    subst h
+    simp [pix2world, fitsCoord]
+
 /-- the flat mask, position by position, is the Spec's `mustBlank` -/
 theorem bigmask_eq_mustBlank {S : Type} (sky : Pix → S) (inside : S → Bool) (negate : Bool)
     (H W i j : Nat) (hi : i < H) (hj : j < W) :
@@ -106,6 +120,18 @@ theorem negate_complementary {S : Type} (sky : Pix → S) (inside : S → Bool) 
   · intro i j
     simp only [mustBlank]
     cases inside (sky (fitsCoord i j)) <;> rfl
+
+theorem count_true_add_count_not (l : List Bool) :
+    l.count true + (l.map (fun b => !b)).count true = l.length := by
+  induction l with
+  | nil => rfl
+  | cons b bs ih => cases b <;> simp <;> omega
+
+/-- the plain run and the `negate` run blank, between them, every pixel exactly once:
+    the numbers of mask bits add up to `H·W` -/
+theorem negate_counts_add_up {S : Type} (sky : Pix → S) (inside : S → Bool) (H W : Nat) :
+    (bigmask sky inside false H W).count true + (bigmask sky inside true H W).count true = H * W := by
+  rw [(negate_complementary sky inside H W).1, count_true_add_count_not, length_bigmask]
 
 /-- **others_unchanged**: a pixel whose centre is not to be blanked keeps its value — the very
     same element of `α` (bit-identical; this includes values that already were the blank) — and the
